@@ -728,6 +728,10 @@ func goCode(root string, unit string) string {
 		header("Model.GoSem", "Model.GoIO")
 		text, errs := translateJtp(parseFile(root, "jtp/jtp.go"), []string{"parseStatusLine", "parseContentType", "parseLocation", "validateHeaders", "findLocation", "Get"})
 		emit("jtp/jtp.go (the response readers and what Get makes of a response)", text, errs)
+	case "view":
+		header("Model.GoSem", "Model.GoSlices", "Model.GoCtl", "Model.Ansi", "Model.Style", "Generated.GoAnsi", "Generated.GoFeed", "Generated.GoHistory")
+		text, errs := translateView(root)
+		emit("ui/ui.go ((*State).view)", text, errs)
 	default:
 		b.WriteString("-- unknown unit " + unit + "\n")
 	}
